@@ -211,7 +211,8 @@ static void emit_misc2(Rng & rng, const F::Factors & sp) {
     auto tp = F::toPartialFactors(full);
     Line l; l << "C14" << "misc2"; l.nats(a.first); l.nats(a.second); l.nats(b.first); l.nats(b.second) << S; l.nats(full) << "|";
     l.nats(mk); l << (size_t)matches.size(); for (auto & m : matches) l << m.first; l << (size_t)matches.size(); for (auto & m : matches) l << m.second;
-    l.nats(mv); l.nats(j.first); l.nats(j.second); l.nats(tp.first); l.nats(tp.second); l.emit();
+    l.nats(mv); l.nats(j.first); l.nats(j.second); l.nats(tp.first); l.nats(tp.second);
+    l << F::match(matches, a.second, b.second) << F::match(a.first, a.second, b.first, b.second); l.emit();
 }
 
 static double dy(Rng & rng) { return (double)rng.range(-32, 32) / 4.0; }
